@@ -267,6 +267,23 @@ def part_misc(ctx: Ctx) -> Result:
                         res.oblige("A:allow-list-admits-library-package" if not path.startswith(str(ctx.tmp)) else "A:allow-list-admits-user-module", True)
                     else:
                         res.oblige("A:allow-list-rejects", True)
+        # names that are directory components of the library prefix itself (e.g. `lib`, `python3.12`): a package of that
+        # name may be listed, but that must not admit the whole library tree
+        prefix_names = sorted({part for r in ROOTS for part in Path(r).parts if part not in ("/",)})
+        lib_sample = [p_ for p_ in sample if any(p_.startswith(r + os.sep) for r in ROOTS)]
+        for nm in prefix_names:
+            os.environ["MONKEYTYPE_TRACE_MODULES"] = nm
+            clear_cache()
+            for path in lib_sample:
+                res.states += 1
+                res.transitions += 1
+                res.evaluations += 1
+                res.validated += 1
+                got = default_code_filter(uniq(t, path))
+                want = oracle(path, [nm])
+                if got != want:
+                    res.violate(Violation(ID, "verdict", "allow-list-prefix-component", {"part": "A", "allow": [nm], "path": path}, f"allow=({nm!r},) {path}: filter {got}, oracle {want}"))
+        res.oblige("A:allow-list-name-equal-to-prefix-component", bool(prefix_names and lib_sample))
     finally:
         if old is None:
             os.environ.pop("MONKEYTYPE_TRACE_MODULES", None)
@@ -423,6 +440,23 @@ def part_run(ctx: Ctx) -> Result:
         res.violate(Violation(ID, "run", "main-recorded", case, f"`run -m`: functions of the module run as __main__ were recorded: {sorted(rows3)[:6]}"))
     if want - rows3:
         res.violate(Violation(ID, "run", "admitted-not-recorded", case, f"`run -m`: admitted calls not recorded: {sorted(want - rows3)}"))
+    for ending, tail in (("sys-exit", "import sys\nsys.exit(0)\n"), ("exception", "raise KeyError('script failed')\n")):
+        sp = d / f"script_{ending}.py"
+        sp.write_text(PROGRAM.format(mod=modname) + "\n" + tail)
+        db4 = str(d / f"run_{ending}.sqlite3")
+        mcfg.reset(db=db4)
+        clear_cache()
+        o4, e4 = io.StringIO(), io.StringIO()
+        res.states += 1
+        res.evaluations += 1
+        try:
+            cli.main(["-c", "mcfg:CONFIG", "run", str(sp)], o4, e4)
+        except BaseException:  # noqa: BLE001 - the script's own exit is expected to propagate
+            pass
+        st4 = mcfg.CONFIG.trace_store()
+        rows4 = {(t.module, t.qualname) for m in st4.list_modules() for t in st4.filter(m)}
+        if want - rows4:
+            res.violate(Violation(ID, "run", "admitted-not-recorded", dict(case, ending=ending), f"script ending with {ending}: admitted calls not recorded: {sorted(want - rows4)}"))
     mcfg.reset(db=db)
     res.sample({"part": "R", "rows": sorted(rows)})
     # custom filters: every subset of the 6 functions
@@ -453,6 +487,27 @@ def part_run(ctx: Ctx) -> Result:
             res.violate(Violation(ID, "custom-filter", "subset-mismatch", {"part": "F", "mask": mask}, f"filter accepts {sorted(sel)} but logger saw {sorted(set(logged))}"))
     res.bounds["F_subset_filters"] = 64
     del sys.modules[modname]
+    # code with a synthetic file name (exec-generated) and a custom filter that accepts it: what the filter accepts is logged
+    ns_exec: Dict[str, Any] = {"__name__": "c17_generated"}
+    exec(compile("def generated_add(a, b):\n    return a + b\n", "<string>", "exec"), ns_exec)
+    for accept_syn in (True, False):
+        logged3: List[str] = []
+
+        class L3:
+            def log(self, t):
+                logged3.append(t.func.__qualname__)
+
+            def flush(self):
+                pass
+
+        with trace_calls(L3(), 0, (lambda code: code.co_filename == "<string>") if accept_syn else (lambda code: False)):
+            ns_exec["generated_add"](1, 2)
+        res.states += 1
+        res.transitions += 1
+        res.evaluations += 1
+        res.validated += 1
+        if (logged3 == ["generated_add"]) != accept_syn:
+            res.violate(Violation(ID, "custom-filter", "synthetic-filename-code", {"part": "F", "accept_synthetic": accept_syn}, f"custom filter {'accepts' if accept_syn else 'rejects'} <string> code, logger saw {logged3}"))
     # twins: textually identical functions (equal code objects) in two files, a custom filter admitting one file only;
     # every call order, one tracer per order
     tw_src = "def twin(x):\n    return x\n\n\nclass T:\n    def tm(self, x):\n        return x\n"
@@ -496,7 +551,7 @@ def run(ctx: Ctx) -> Result:
     res.merge(part_paths(ctx))
     res.merge(part_misc(ctx))
     res.merge(part_run(ctx))
-    for o in ("P:symlinked-spelling-of-library-path", "A:allow-list-admits-library-package", "A:allow-list-admits-user-module", "A:allow-list-rejects", "C:equal-code-different-verdicts", "F:twin-code-objects-equal", "U:mod=True", "U:link_to_lib=False", "U:link_to_user=True", "U:near-root-path-admitted", "U:near-root-path-rejected"):
+    for o in ("P:symlinked-spelling-of-library-path", "A:allow-list-admits-library-package", "A:allow-list-admits-user-module", "A:allow-list-rejects", "C:equal-code-different-verdicts", "F:twin-code-objects-equal", "A:allow-list-name-equal-to-prefix-component", "U:mod=True", "U:link_to_lib=False", "U:link_to_user=True", "U:near-root-path-admitted", "U:near-root-path-rejected"):
         res.obligations.setdefault(o, False)
     res.nontrivial_n = res.states
     return res
